@@ -91,7 +91,7 @@ func compactEngine() {
 					_ = d.Close()
 					_ = s.Close()
 				} else {
-					out, err := exec.Command("/verif/bin/bbolt", "compact", "-o", dst, "--tx-max-size", fmt.Sprint(limit), src).CombinedOutput()
+					out, err := exec.Command(cliPath(), "compact", "-o", dst, "--tx-max-size", fmt.Sprint(limit), src).CombinedOutput()
 					cerr, cliOut = err, string(out)
 				}
 				if cerr != nil {
